@@ -169,13 +169,32 @@ theorem txn_refines_spec (cfg : Cfg) (hg : GoodCfg cfg) (z : Nodes) (sz : SZone)
   intro s0 t0 m r
   have h0 : TSim cfg s0 t0 := by
     cases ro
-    · exact { zone := hz, ver := hz, izone := hi, iver := hi, ro := rfl, ended := rfl, changed := rfl,
-              unchanged := fun _ => rfl }
-    · exact { zone := hz, ver := hz, izone := hi, iver := hi, ro := rfl, ended := rfl, changed := rfl,
-              unchanged := fun _ => rfl }
+    · exact { zone := hz, ver := hz, izone := hi, iver := hi, ro := rfl, ended := rfl, changed := rfl }
+    · exact { zone := hz, ver := hz, izone := hi, iver := hi, ro := rfl, ended := rfl, changed := rfl }
   obtain ⟨h1, h2⟩ := run_refines cfg hg ops s0 t0 h0
   have h3 := exit_refines cfg m.1 r.1 h1 exc
   exact ⟨h2, h3.zone, h3.izone⟩
+
+/-- The same for `zone.writer(replacement=True)`: the version starts empty, whatever the zone holds; the zone is
+replaced by what the transaction built — or left as it was if the transaction changed nothing or was aborted. -/
+theorem txn_refines_spec_replacement (cfg : Cfg) (hg : GoodCfg cfg) (z : Nodes) (sz : SZone)
+    (hz : Sim cfg.rdclass z sz) (hi : Inv cfg.rdclass z) (ops : List Op) (exc : Bool) :
+    let m := run cfg (beginReplace z) ops
+    let r := sRun cfg (sBeginReplace sz) (ops.map toSOp)
+    AllRel (ResRel cfg.rdclass) m.2 r.2 ∧
+      Sim cfg.rdclass (exitTxn m.1 exc).zone (sExit r.1 exc).zone ∧ Inv cfg.rdclass (exitTxn m.1 exc).zone ∧
+      ((∀ op ∈ ops, op.isCommit = false) → exc = true → (exitTxn m.1 exc).zone = z) := by
+  intro m r
+  have h0 : TSim cfg (beginReplace z) (sBeginReplace sz) :=
+    { zone := hz, ver := ⟨fun _ _ _ => rfl, fun _ => rfl⟩, izone := hi, iver := Inv.nil _, ro := rfl, ended := rfl,
+      changed := rfl }
+  obtain ⟨h1, h2⟩ := run_refines cfg hg ops _ _ h0
+  have h3 := exit_refines cfg m.1 r.1 h1 exc
+  refine ⟨h2, h3.zone, h3.izone, ?_⟩
+  intro hnc hexc
+  subst hexc
+  rw [exit_exc_zone, run_zone cfg ops _ hnc]
+  rfl
 
 /-- Every well-formed concrete zone (owner keys distinct, no empty node, one class, (type, covers) distinct within
 a node) is simulated by its flattening — so the refinement applies to arbitrary initial zones. -/
@@ -234,8 +253,7 @@ theorem reads_see_writes (cfg : Cfg) (hg : GoodCfg cfg) (z : Nodes) (sz : SZone)
       (step cfg s (.nameExists n)).2 = (sStep cfg r (.nameExists n)).2 := by
   intro s r
   have h0 : TSim cfg (beginWrite z) (sBeginWrite sz) :=
-    { zone := hz, ver := hz, izone := hi, iver := hi, ro := rfl, ended := rfl, changed := rfl,
-      unchanged := fun _ => rfl }
+    { zone := hz, ver := hz, izone := hi, iver := hi, ro := rfl, ended := rfl, changed := rfl }
   exact reads_refine cfg s r (run_refines cfg hg ops _ _ h0).1 n t c
 
 /-- a write is read back: the reference model returns the rdataset just stored -/
